@@ -535,8 +535,13 @@ def _bookkeeping(ctx):
         v = [N.txt(t.value) for t, _v, _k in K.assigns_attr(node)][0]
         defs = [s for s in K.walk_no_nested(fr.node)
                 if isinstance(s, ast.Assign) and N.txt(s.targets[0]) == v]
-        ok = len(defs) == 1 and N.txt(defs[0].value).startswith(
-            'server.apps.get(') and K.guarded_by(
+        # looked up among the instances of the server named by the request
+        # (self.servers.get(<first parameter>)), whatever the locals are
+        # called
+        want = 'self.servers.get(%s).apps.get(' % fr.params()[1]
+        alt = 'self.servers[%s].apps.get(' % fr.params()[1]
+        ok = len(defs) == 1 and K.rtxt(fr, defs[0].value).startswith(
+            (want, alt)) and K.guarded_by(
                 graph, node, lambda e, v=v: K.truth_edge(nz, e, v, True))
         ctx.ob('C08.6', fr, node, ok,
                'only instances found on that server are marked')
